@@ -484,7 +484,7 @@ pub fn run(cfg: &Cfg, rep: &mut Report) {
       }
     }
   }
-  let total = cfg.n(150_000, 18_000_000);
+  let total = cfg.n(500_000, 18_000_000);
   let kmax = cfg.n(3, 5);
   let mut rng = Rng::new(cfg.seed ^ 0xC05);
   for i in 0..total {
@@ -497,13 +497,13 @@ pub fn run(cfg: &Cfg, rep: &mut Report) {
   }
 
   // thread part: outer, inner and unsubscribing threads on merge_all_threads (baton scheduler)
-  let n = cfg.n(6_000, 600_000);
+  let n = cfg.n(12_000, 600_000);
   super::thr::systematic_families(cfg, rep, 0xC05A, &[9, 9, 9], &|_, _| {}, &|o, s| super::thr::flatten_oracle(o, s));
   super::thr::campaign(cfg, rep, "thr", n, 0xC05F, &mut |r: &mut Rng| super::thr::random_scen(r, 9), &|o, s| super::thr::flatten_oracle(o, s));
 
   // mixed battery: cold, hot AND timed (interval.take / timer) inners on the virtual clock,
   // judged by invariants read off the tracked inners (conservation, per-inner order, limit, completion)
-  let total = cfg.n(40_000, 4_000_000);
+  let total = cfg.n(200_000, 4_000_000);
   let mut rng = Rng::new(cfg.seed ^ 0xC05B);
   for i in 0..total {
     let mut r = rng.fork();
